@@ -114,6 +114,13 @@ def rules(t, u, hist_tbl):
     for pos, e in positions(lambda: t.a.max(), t, "num"):
         add(f"G4/nested_agg_in_agg/{pos}", "aggregate nested in aggregate", (E.FunctionTypeError,), lambda e=e: T >> pdt.mutate(x=e().sum()))
         add(f"G4/nested_agg_in_window/{pos}", "aggregate nested in window function", (E.FunctionTypeError,), lambda e=e: T >> pdt.mutate(x=e().shift(1, arrange=t.b)))
+    # the whole nested construct at every syntactic position (also inside a case condition whose branch values are literals)
+    for nname, w in (("agg_in_window", lambda: t.a.max().shift(1, arrange=t.b)), ("agg_in_agg", lambda: t.a.max().sum()), ("window_in_agg", lambda: t.a.shift(1, arrange=t.b).max()), ("window_in_window", lambda: t.a.shift(1, arrange=t.b).shift(1, arrange=t.b))):
+        for pos, e in positions(w, t, "num"):
+            add(f"G4/{nname}/mutate/{pos}", f"{nname} nested, used in mutate", (E.FunctionTypeError,), lambda e=e: T >> pdt.mutate(x=e()))
+        for pos, e in positions(w, t, "num"):
+            if pos in ("top", "case_condition", "case_value"):
+                add(f"G4/{nname}/arrange/{pos}", f"{nname} nested, used in arrange", (E.FunctionTypeError,), lambda e=e: T >> pdt.arrange(e()))
     add("G4/nested_in_context_kwarg", "window function inside arrange= of a window function", (E.FunctionTypeError,), lambda: T >> pdt.mutate(x=t.a.shift(1, arrange=t.b.shift(1, arrange=t.a))))
     add("G4/nested_in_partition_by", "aggregate inside filter= of an aggregate", (E.FunctionTypeError,), lambda: T >> pdt.mutate(x=t.a.sum(filter=t.b.max() > 1)))
     # G5 non-aggregated non-grouping column in summarize
